@@ -8,6 +8,8 @@ Re-extracted on every run (comments / whitespace invisible):
   _render_stanza_recursive   the snprintf format strings, in order                  -> render_formats
                              the literal compared with the attribute key            -> xmlns_key
                              the macro compared at top level                        -> top_elided_ns (its value)
+                             whether the parent test excludes the render root and the top-level test
+                             includes it, and the call sites pass the root          -> render_root_is_top
   xmpp_stanza_reply          the names given to xmpp_stanza_del_attribute           -> reply_deleted
   xmpp_stanza_reply_error    literal strings / macros, in order                     -> reply_error_literals
   xmpp_error_new             element name; case XMPP_SE_x -> name table in the order of the enum
@@ -199,8 +201,32 @@ def values():
                            re.findall(r"\bstrophe_snprintf\s*\(\s*ptr\s*,\s*left\s*,\s*" + STR, rr)]
     v["xmlns_key"] = c_string_bytes(one(r"!\s*strcmp\s*\(\s*key\s*,\s*" + STR + r"\s*\)", rr,
                                         "_render_stanza_recursive: !strcmp(key, \"..\")"))
-    top = one(r"!\s*stanza\s*->\s*parent\s*&&\s*!\s*strcmp\s*\(\s*\(\s*char\s*\*\s*\)\s*hash_get\s*\(\s*stanza\s*->\s*attributes\s*,\s*key\s*\)\s*,\s*(\w+)\s*\)",
+    top = one(r"!\s*strcmp\s*\(\s*\(\s*char\s*\*\s*\)\s*hash_get\s*\(\s*stanza\s*->\s*attributes\s*,\s*key\s*\)\s*,\s*(XMPP_NS_\w+)\s*\)",
               rr, "_render_stanza_recursive: top-level elision test")
+    # is the stanza handed to xmpp_stanza_to_text rendered as the top of the output (its own parent, which is
+    # not part of the output, ignored)?  Two accepted shapes:
+    #   old:  if (stanza->parent && ...parent's xmlns equal) continue;   if (!stanza->parent && ...CLIENT) continue;
+    #   new:  if (stanza != root && stanza->parent && ...) continue;     if ((stanza == root || !stanza->parent) && ...) continue;
+    par = re.findall(r"if\s*\(\s*(stanza\s*!=\s*root\s*&&\s*)?stanza\s*->\s*parent\s*&&\s*stanza\s*->\s*parent\s*->\s*attributes\s*&&", rr)
+    topc = re.findall(r"if\s*\(\s*(\(\s*stanza\s*==\s*root\s*\|\|\s*!\s*stanza\s*->\s*parent\s*\)|!\s*stanza\s*->\s*parent)\s*&&\s*!\s*strcmp", rr)
+    if len(par) != 1 or len(topc) != 1:
+        raise T.TranslateError("_render_stanza_recursive: xmlns elision tests not in a known shape")
+    new_par = par[0] != ""
+    new_top = "root" in topc[0]
+    tt_calls = re.findall(r"_render_stanza_recursive\s*\(([^;]*?)\)\s*;", tt)
+    rec_calls = re.findall(r"_render_stanza_recursive\s*\(([^;]*?)\)\s*;", rr)
+    norm = lambda a: [x.strip() for x in a.split(",")]
+    if new_par or new_top:
+        ok = (new_par and new_top and len(tt_calls) == 2 and all(norm(a)[:2] == ["stanza", "stanza"] for a in tt_calls)
+              and len(rec_calls) == 1 and norm(rec_calls[0])[:2] == ["child", "root"])
+        if not ok:
+            raise T.TranslateError("_render_stanza_recursive: the render root is only partly treated as top level")
+        v["render_root_is_top"] = True
+    else:
+        if not (len(tt_calls) == 2 and all(norm(a)[0] == "stanza" for a in tt_calls) and len(rec_calls) == 1
+                and norm(rec_calls[0])[0] == "child"):
+            raise T.TranslateError("_render_stanza_recursive: unexpected call shape")
+        v["render_root_is_top"] = False
     v["top_elided_ns"] = macro_string(hdr, top)
     # --- reply
     rp = func_body(src, "xmpp_stanza_reply")
@@ -256,7 +282,9 @@ def generate():
     out += "(* _render_stanza_recursive: snprintf formats in source order, the elided key, the namespace elided at top level *)\n"
     out += "Definition render_formats : list (list Z) := [%s].\n" % ";\n  ".join(bl(f) for f in v["render_formats"])
     out += "Definition xmlns_key : list Z := %s.\n" % bl(v["xmlns_key"])
-    out += "Definition top_elided_ns : list Z := %s.\n\n" % bl(v["top_elided_ns"])
+    out += "Definition top_elided_ns : list Z := %s.\n" % bl(v["top_elided_ns"])
+    out += "(* xmpp_stanza_to_text renders its argument as the top of the output (the argument's own parent is ignored) *)\n"
+    out += "Definition render_root_is_top : bool := %s.\n\n" % ("true" if v["render_root_is_top"] else "false")
     out += "(* xmpp_stanza_reply: attributes deleted from the copy, in order *)\n"
     out += "Definition reply_deleted : list (list Z) := [%s].\n" % "; ".join(bl(f) for f in v["reply_deleted"])
     out += "(* xmpp_stanza_reply_error: string literals / namespace macros in source order *)\n"
